@@ -70,6 +70,18 @@ fn wit() -> VKeyWitness {
 fn msg() -> [u8; 32] {
     kani::any()
 }
+/// cheaper variants for the two-signer harnesses: symbolic key, the valid signature / message with a symbolic first byte
+fn wit_sig1() -> VKeyWitness {
+    let k: [u8; 32] = kani::any();
+    let mut s = SIG;
+    s[0] = kani::any();
+    VKeyWitness { vkey: Bytes::from(k.to_vec()), signature: Bytes::from(s.to_vec()) }
+}
+fn msg1() -> [u8; 32] {
+    let mut m = MSG;
+    m[0] = kani::any();
+    m
+}
 
 // ------------------------------------------------------------------ check_remaining_vk_wits
 
@@ -244,36 +256,25 @@ macro_rules! req_signers {
         #[kani::stub(pallas_validate::utils::verify_signature, verify_sig_stub)]
         #[kani::stub(pallas_crypto::hash::Hasher::<224>::hash, hash224_stub)]
         fn $name() {
-            let wv = vec![wit(), wit()];
+            let wv = vec![wit_sig1()];
             let a: [u8; 28] = kani::any();
             let b: [u8; 28] = kani::any();
             let $s0: Hash<28> = Hash::new(a);
             let $s1: Hash<28> = Hash::new(b);
             let sg = [$s0, $s1];
             let $rs = Some($mk);
-            let have_wits: bool = kani::any();
-            let data = msg();
+            let data = msg1();
             let $d = &data[..];
             let h0 = Hasher::<224>::hash(wv[0].vkey.as_slice());
-            let h1 = Hasher::<224>::hash(wv[1].vkey.as_slice());
             let v0 = verify_signature(&wv[0], $d);
-            let v1 = verify_signature(&wv[1], $d);
-            let $w = if have_wits { Some(wv) } else { None };
+            let $w = Some(wv);
             let r = $call;
-            kani::cover!(r.is_ok(), "both signers have a verifying witness");
-            kani::cover!(r.is_err() && have_wits, "some signer is not covered");
-            if !have_wits {
-                assert!(r.is_err(), "signers required but no witness list: Err");
-            }
+            kani::cover!(r.is_ok(), "both signers are the witness's key, which verifies");
+            kani::cover!(r.is_err() && heq(&h0, &sg[0]) && v0, "first signer covered, second not");
+            kani::cover!(r.is_err() && heq(&h0, &sg[0]) && heq(&h0, &sg[1]), "covered but wrong signature");
             if r.is_ok() {
-                let mut k = 0;
-                while k < 2 {
-                    let m0 = heq(&h0, &sg[k]);
-                    let m1 = heq(&h1, &sg[k]);
-                    assert!(m0 || m1, "Ok => every required signer has a witness");
-                    assert!(if m0 { v0 } else { v1 }, "Ok => every required signer's (first) witness verifies");
-                    k += 1;
-                }
+                assert!(heq(&h0, &sg[0]) && heq(&h0, &sg[1]), "Ok => every required signer has a witness");
+                assert!(v0, "Ok => every required signer's witness verifies");
             }
             core::mem::forget(r);
             core::mem::forget($w);
@@ -282,16 +283,18 @@ macro_rules! req_signers {
     };
 }
 
-// bound: 2 required signers (symbolic 28-byte hashes), witness list None / Some(2 witnesses with symbolic keys and signatures), symbolic 32-byte message; unwind 67
+// bound: 2 required signers (symbolic 28-byte hashes), 1 witness (symbolic 32-byte key; signature and message = the valid ones with a symbolic first byte); 2 signers x 2 witnesses gave no verdict in 600 s; unwind 67
 req_signers!(c35_q_req_signers_conway, |s0, s1| NonEmptySet::from_vec(vec![s0, s1]).unwrap(), |rs, w, d| conway::verif_hooks::check_required_signers(&rs, &w, d));
 req_signers!(c35_t_req_signers_babbage, |s0, s1| vec![s0, s1], |rs, w, d| babbage::verif_hooks::check_required_signers(&rs, &w, d));
 req_signers!(c35_t_req_signers_alonzo, |s0, s1| vec![s0, s1], |rs, w, d| alonzo::verif_hooks::check_required_signers(&rs, &w, d));
 
 /// no required signers: the rule does not apply
-/// bound: required_signers = None, witness list None; unwind 67
+/// bound: required_signers = None or one symbolic signer, witness list None; unwind 67
 #[kani::proof]
 #[kani::unwind(67)]
 #[kani::stub(std::fmt::format, crate::stubs::fmt_format_stub)]
+#[kani::stub(pallas_validate::utils::verify_signature, verify_sig_stub)]
+#[kani::stub(pallas_crypto::hash::Hasher::<224>::hash, hash224_stub)]
 fn c35_q_req_signers_none() {
     let data = msg();
     let r = conway::verif_hooks::check_required_signers(&None, &None, &data);
@@ -299,7 +302,15 @@ fn c35_q_req_signers_none() {
     let r3 = babbage::verif_hooks::check_required_signers(&None, &None, &data);
     kani::cover!(r.is_ok(), "accepted");
     assert!(r.is_ok() && r2.is_ok() && r3.is_ok(), "no required signers: Ok");
-    core::mem::forget((r, r2, r3));
+    let hb: [u8; 28] = kani::any();
+    let rs = Some(vec![Hash::<28>::new(hb)]);
+    let r4 = alonzo::verif_hooks::check_required_signers(&rs, &None, &data);
+    let r5 = babbage::verif_hooks::check_required_signers(&rs, &None, &data);
+    let crs = Some(NonEmptySet::from_vec(vec![Hash::<28>::new(hb)]).unwrap());
+    let r6 = conway::verif_hooks::check_required_signers(&crs, &None, &data);
+    assert!(r4.is_err() && r5.is_err() && r6.is_err(), "signers required but no witness list: Err");
+    core::mem::forget((r, r2, r3, r4, r5, r6));
+    core::mem::forget((rs, crs));
 }
 
 /// vacuity twin: must come back FAILED
